@@ -129,18 +129,18 @@ theorem drawState_tape (t : Rand.Tape) (off j : Nat) : drawState (tapeDraw t) of
 theorem newRandomKeyID_body_next {S : Type} (draw : S → Nat × S) (fuel : Nat) (u0 : List Nat) (s0 : S)
     (s : S) (u : List Nat) (h : (draw s).1 ∈ u) :
     ManagerGo.newRandomKeyID.loop1.body S draw fuel u0 s0 (s, u) = Step.next ((draw s).2, u) := by
-  simp only [ManagerGo.newRandomKeyID.loop1.body, ManagerGo.newRandomKeyID.loop1.found,
-    ManagerGo.newRandomKeyID.loop1.newRandomID, ManagerGo.newRandomKeyID.loop1.ext_draw,
-    ManagerGo.newRandomKeyID.loop1.tape, h, decide_true, not_true_eq_false, ↓reduceIte]
+  simp only [ManagerGo.newRandomKeyID.loop1.body, ManagerGo.newRandomKeyID.loop1.v4,
+    ManagerGo.newRandomKeyID.loop1.v3, ManagerGo.newRandomKeyID.loop1.v1,
+    ManagerGo.newRandomKeyID.loop1.v2, h, decide_true, not_true_eq_false, ↓reduceIte]
 
 /-- one iteration on an available word: `return` it, having marked it unavailable -/
 theorem newRandomKeyID_body_ret {S : Type} (draw : S → Nat × S) (fuel : Nat) (u0 : List Nat) (s0 : S)
     (s : S) (u : List Nat) (h : (draw s).1 ∉ u) :
     ManagerGo.newRandomKeyID.loop1.body S draw fuel u0 s0 (s, u)
       = Step.ret ((draw s).2, (draw s).1 :: u, (draw s).1) := by
-  simp only [ManagerGo.newRandomKeyID.loop1.body, ManagerGo.newRandomKeyID.loop1.found,
-    ManagerGo.newRandomKeyID.loop1.newRandomID, ManagerGo.newRandomKeyID.loop1.ext_draw,
-    ManagerGo.newRandomKeyID.loop1.tape, ManagerGo.newRandomKeyID.loop1.km_unavailableKeyIDs, h, decide_false,
+  simp only [ManagerGo.newRandomKeyID.loop1.body, ManagerGo.newRandomKeyID.loop1.v4,
+    ManagerGo.newRandomKeyID.loop1.v3, ManagerGo.newRandomKeyID.loop1.v1,
+    ManagerGo.newRandomKeyID.loop1.v2, ManagerGo.newRandomKeyID.loop1.v5, h, decide_false,
     Bool.false_eq_true, not_false_eq_true, ↓reduceIte]
 
 /-- the `whileSteps` loop, started anywhere (the body's unused parameters `fuel0 u0 s0` are those of the call) -/
@@ -209,8 +209,8 @@ theorem managerId_newRandomKeyID_gen {S : Type} (draw : S → Nat × S) (unavail
 theorem managerId_exhausted_gen {S : Type} (draw : S → Nat × S) (unavail : List Nat) (s : S) (fuel : Nat)
     (h : Manager.drawId unavail (drawSeq draw s fuel) = none) :
     ManagerGo.newRandomKeyID S draw fuel unavail s = (drawState draw s fuel, unavail, 0) := by
-  simp only [ManagerGo.newRandomKeyID, ManagerGo.newRandomKeyID.loop1, ManagerGo.newRandomKeyID.tape_2,
-    ManagerGo.newRandomKeyID.km_unavailableKeyIDs_2,
+  simp only [ManagerGo.newRandomKeyID, ManagerGo.newRandomKeyID.loop1, ManagerGo.newRandomKeyID.v6,
+    ManagerGo.newRandomKeyID.v7,
     newRandomKeyID_loop_exhausted draw fuel unavail s unavail fuel s h]
 
 /-- the returned id is not in the old unavailable set and is in the new one (which is the old one plus the id) -/
